@@ -1,4 +1,5 @@
 import MoqModel.Props.C06
+import MoqModel.ConcHeap
 /-
   C05 — concurrent use is data-race free and loses no call record.
 
@@ -105,5 +106,108 @@ theorem cellStep_is_append (grow : Nat → Nat) (s : St) (m : Str) (r : Rec) :
                hdr := upd s.hdr m (cellStep grow (s.arrays m) (s.hdr m) r).2 } := by
   simp only [appendRec, cellStep]
   split <;> rfl
+
+end Moq.Conc
+
+namespace Moq.Conc
+open Moq Moq.Seq
+
+variable (grow : Nat → Nat) (bodies : List (List MI)) (hb : BodiesOK bodies)
+
+include hb in
+/-- **the records behave like one atomic append-only list per method**: in every reachable
+    state what `MCalls()` would return is exactly the ghost log – the records committed (one per
+    completed `append`, each exactly the `callInfo` of its call: `Step.wrHdr`) since the last
+    reset, in commit order -/
+theorem c05_log (g : G) (r : Reach grow bodies g) (m : Str) : g.contents m (g.hdr m) = g.log m :=
+  (reach_inv grow bodies hb g r).2.log m
+
+include hb in
+/-- a slice handed out earlier denotes, in every later state of every schedule, exactly the
+    records it denoted when it was taken (no tearing, no later change) -/
+theorem c05_snapshot_stable (g : G) (r : Reach grow bodies g) (t : Tid) (x : Snap)
+    (hx : x ∈ (g.thr t).snaps) : g.contents x.1 x.2.1 = x.2.2.1 :=
+  (reach_inv grow bodies hb g r).2.ghost t x hx
+
+theorem prefix_comparable {α} (a b l : List α) (ha : a <+: l) (hb : b <+: l) : a <+: b ∨ b <+: a := by
+  by_cases h : a.length ≤ b.length
+  · exact Or.inl (List.prefix_of_prefix_length_le ha hb h)
+  · exact Or.inr (List.prefix_of_prefix_length_le hb ha (by omega))
+
+include hb in
+/-- **between resets, every snapshot is a prefix of every later one**: two snapshots of the same
+    method taken in the current reset epoch are comparable by the prefix order -/
+theorem c05_prefix (g : G) (r : Reach grow bodies g) (t t' : Tid) (x y : Snap)
+    (hx : x ∈ (g.thr t).snaps) (hy : y ∈ (g.thr t').snaps) (hm : x.1 = y.1)
+    (ex : x.2.2.2 = g.epoch x.1) (ey : y.2.2.2 = g.epoch y.1) :
+    x.2.2.1 <+: y.2.2.1 ∨ y.2.2.1 <+: x.2.2.1 := by
+  have inv := (reach_inv grow bodies hb g r).2
+  have px := inv.pref t x hx ex
+  have py := inv.pref t' y hy ey
+  rw [hm] at px
+  exact prefix_comparable _ _ _ px py
+
+/-- the cell an in-place `append` is about to store into -/
+def cellWrite (g : G) (t : Tid) : Option (Str × Nat × Nat) :=
+  match (g.thr t).code with
+  | .wrCell m :: _ => if (g.thr t).h.len < (g.thr t).h.cap then some (m, (g.thr t).h.arr, (g.thr t).h.len) else none
+  | _ => none
+
+/-- cells a goroutine may read without any lock: those of the slices it was handed -/
+def snapReads (g : G) (t : Tid) (m : Str) (a i : Nat) : Prop :=
+  ∃ x ∈ (g.thr t).snaps, x.1 = m ∧ x.2.1.arr = a ∧ i < x.2.1.len
+
+include hb in
+/-- **no data race on the backing arrays**: the cell an in-place `append` writes is beyond the
+    length of every slice of that array that was ever handed out, so user code reading its
+    snapshots never touches it -/
+theorem c05_cell_race_free (g : G) (r : Reach grow bodies g) (t t' : Tid) (m : Str) (a i : Nat)
+    (hw : cellWrite g t = some (m, a, i)) : ¬ snapReads g t' m a i := by
+  obtain ⟨linv, inv⟩ := reach_inv grow bodies hb g r
+  unfold cellWrite at hw
+  cases hc : (g.thr t).code with
+  | nil => simp [hc] at hw
+  | cons mi rest =>
+    rw [hc] at hw
+    cases mi <;> simp at hw
+    case wrCell m' =>
+      obtain ⟨_, rfl, rfl, rfl⟩ := hw
+      have hh := inv.rd t m' rest hc
+      rintro ⟨x, hx, hxm, hxa, hxi⟩
+      have s := inv.snapOK t' x hx
+      have := s.below (by simp only [G.toSt, hxm]; rw [hxa, hh])
+      simp only [G.toSt, hxm] at this
+      rw [hh] at hxi
+      omega
+
+include hb in
+/-- two goroutines are never both inside the memory steps of an `append` on the same method -/
+theorem c05_cell_writers_exclusive (g : G) (r : Reach grow bodies g) (t t' : Tid) (m : Str) (rest rest' : List MI)
+    (h1 : (g.thr t).code = .wrCell m :: rest ∨ (g.thr t).code = .wrHdr m :: rest)
+    (h2 : (g.thr t').code = .wrCell m :: rest' ∨ (g.thr t').code = .wrHdr m :: rest') : t = t' := by
+  obtain ⟨linv, _⟩ := reach_inv grow bodies hb g r
+  apply Classical.byContradiction
+  intro hne
+  have w1 := holdsW_of_code g linv t m rest (by rcases h1 with h | h; exact Or.inl h; exact Or.inr (Or.inl h))
+  have w2 := holdsW_of_code g linv t' m rest' (by rcases h2 with h | h; exact Or.inl h; exact Or.inr (Or.inl h))
+  exact linv.excl t t' m Mode.w hne w1 w2
+
+/-- every compiled body of every generated mock is guarded and keeps `append`'s steps together -/
+theorem c05_bodies_ok (d : Data) (mk : MockD) (f : MockF) (h : genMockF d mk = some f) :
+    BodiesOK (mockBodies f) := by
+  intro b hbm
+  refine ⟨c06_bodies_guarded d mk f h b hbm, ?_⟩
+  -- every body is `compile` of a statement list
+  unfold mockBodies at hbm
+  rcases List.mem_append.mp hbm with h1 | h2
+  · obtain ⟨mf, _, hbm'⟩ := List.mem_flatMap.mp h1
+    rcases List.mem_append.mp hbm' with h3 | h4
+    · simp at h3; rcases h3 with e | e <;> subst e <;> exact wfCode_compile _
+    · cases hrb : mf.resetBody with
+      | none => simp [hrb] at h4
+      | some rb => simp [hrb] at h4; subst h4; exact wfCode_compile _
+  · cases hra : f.resetAll with
+    | none => simp [hra] at h2
+    | some rb => simp [hra] at h2; subst h2; exact wfCode_compile _
 
 end Moq.Conc
